@@ -13,6 +13,9 @@
 #include <crab/domains/abstract_domain_operators.hpp>
 #include <crab/support/debug.hpp>
 #include <crab/support/stats.hpp>
+#include <crab/numbers/bignums.hpp>
+
+#include <type_traits>
 
 namespace crab {
 namespace domains {
@@ -116,6 +119,27 @@ public:
         dom.apply(OP_MULTIPLICATION, y, x, k);
         if (!(x == y)) {
           dom -= x;
+        }
+        if (std::is_same<number_t, ikos::z_number>::value && k != 1 &&
+            k != -1) {
+          // Integer division truncates so it is not invertible: y is
+          // any value such that y / k = x, i.e., y is in
+          // [x*k - (|k|-1), x*k + (|k|-1)]. We keep only the bounds
+          // of y, enlarged by |k|-1.
+          using interval_t = typename AbsDom::interval_t;
+          number_t slack = (k < 0 ? -k : k) - 1;
+          interval_t y_int = dom.at(y) + interval_t(-slack, slack);
+          dom -= y;
+          if (y_int.lb().is_finite()) {
+            dom += linear_constraint_t(
+                linear_expression_t(*(y_int.lb().number())) - y,
+                linear_constraint_t::INEQUALITY);
+          }
+          if (y_int.ub().is_finite()) {
+            dom += linear_constraint_t(
+                linear_expression_t(y) - *(y_int.ub().number()),
+                linear_constraint_t::INEQUALITY);
+          }
         }
       } else {
         dom -= x;
